@@ -3376,6 +3376,9 @@ class Session(object):
             return None
 
         def run_add_or_renew_pool():
+            if self.is_shutdown:
+                # queued before the session was shut down: do not start connecting now
+                return False
             try:
                 if self._protocol_version >= 3:
                     new_pool = HostConnection(host, distance, self)
